@@ -5,7 +5,7 @@
     The tables ([c15_uid_tables], ...) are assembled here from the plain definitions that
     harness/tables_c15.py regenerates into Gen/Tables.v on every run. *)
 From Coq Require Import ZArith List Bool.
-From TM Require Import Codec.BaseN Codec.Dec Codec.Event Gen.Tables.
+From TM Require Import Codec.BaseN Codec.Dec Codec.Event Codec.Rule Gen.Tables.
 Import ListNotations.
 Open Scope Z_scope.
 
@@ -39,6 +39,12 @@ Definition c15_node_tables : node_tables := {|
   nt_sep := c15_node_sep; nt_fields := c15_node_fields
 |}.
 
+Definition c15_rule_tables : rule_tables := {|
+  rt_dnat := c15_rule_dnat_pattern; rt_snat := c15_rule_snat_pattern; rt_pt := c15_rule_pt_pattern;
+  rt_dnat_re := c15_rule_dnat_re; rt_snat_re := c15_rule_snat_re; rt_pt_re := c15_rule_pt_re;
+  rt_any := c15_rule_any; rt_any_port := c15_rule_any_port
+|}.
+
 (** * Flattening *)
 Definition fstr (s : str) : list Z := zlen s :: s.
 Definition fres {A} (f : A -> list Z) (r : res A) : list Z :=
@@ -63,6 +69,14 @@ Definition fbody (b : body) : list Z :=
 Definition fopt {A} (f : A -> list Z) (o : option A) : list Z :=
   match o with None => [0] | Some a => 1 :: f a end.
 
+Definition frule (r : rule) : list Z :=
+  match r with
+  | DNAT pr si sp di dp ni np => 0 :: fstr pr ++ fostr si ++ [sp] ++ fostr di ++ [dp] ++ fstr ni ++ [np]
+  | SNAT pr si sp di dp ni np => 1 :: fstr pr ++ fostr si ++ [sp] ++ fostr di ++ [dp] ++ fstr ni ++ [np]
+  | PassThrough si di => 2 :: fstr si ++ fstr di
+  end.
+Definition fchain_rule (cr : str * rule) : list Z := fstr (fst cr) ++ frule (snd cr).
+
 Inductive c15case :=
 | CBaseN (al : option str) (base : option Z) (n : Z)       (* to_base_n, then from_base_n of its result *)
 | CBaseNDec (al : option str) (base : option Z) (s : str)  (* from_base_n on an arbitrary string *)
@@ -72,7 +86,9 @@ Inductive c15case :=
 | CEvent (hdr : list Z) (b : body)                         (* to_data, then <family>TraceEvent.from_data of its result *)
 | CEventDec (server : bool) (ty d : str)                   (* from_data on arbitrary (event_type, event_data) *)
 | CNode (id when host ty d : str)                          (* publish -> node name -> TraceLoop._process_events *)
-| CNodeDec (name : str).                                   (* TraceLoop._process_events on an arbitrary node name *)
+| CNodeDec (name : str)                                    (* TraceLoop._process_events on an arbitrary node name *)
+| CRule (chain : str) (r : rule)                           (* RuleMgr._filenameify, then get_rule of its result *)
+| CRuleDec (name : str).                                   (* RuleMgr.get_rule on an arbitrary file name *)
 
 Definition run_case (c : c15case) : list Z :=
   let T := c15_uid_tables in
@@ -107,4 +123,10 @@ Definition run_case (c : c15case) : list Z :=
       | Some name => 0 :: fstr name ++ fopt (fun ps => concat (map fstr ps)) (node_fields c15_node_tables name)
       end
   | CNodeDec name => fopt (fun ps => concat (map fstr ps)) (node_fields c15_node_tables name)
+  | CRule chain r =>
+      match filenameify c15_rule_tables chain r with
+      | None => [E_OTHER]
+      | Some name => 0 :: fstr name ++ fopt fchain_rule (get_rule c15_rule_tables name)
+      end
+  | CRuleDec name => fopt fchain_rule (get_rule c15_rule_tables name)
   end.
